@@ -33,6 +33,14 @@
 (* features alone, tasks_params[i] = [], in any position; its sweep        *)
 (* loss_i -> features still executes - and may free - the head's nodes)    *)
 (* x which ops save tensors (patterns).                                    *)
+(* Skeletons 10-12 have heads with PARAMETER-ONLY BRANCHES: a sub-graph of *)
+(* the head that lies on a path loss_i -> tasks_params_i but on no path    *)
+(* loss_i -> features (a regulariser added to the loss: on a parameter of  *)
+(* its own, on a parameter the data term uses too, one or two ops deep,    *)
+(* reduced by sum, as the ONLY place where the head's parameters occur).   *)
+(* The one sweep (loss_i -> tasks_params_i + features) executes - and with *)
+(* retain_graph=False frees - such a branch together with the rest of the  *)
+(* head, as the twin sweep does (ParamOnly, ParamOnlyBranchesFreed).       *)
 (***************************************************************************)
 EXTENDS Integers, Sequences, FiniteSets, TLC, Json
 
@@ -74,6 +82,7 @@ A(sz)     == [k |-> "acc", c |-> <<>>, sz |-> sz]
 O1(a)     == [k |-> "op",  c |-> <<a>>, sz |-> 0]
 O2(a, b)  == [k |-> "op",  c |-> <<a, b>>, sz |-> 0]
 Sm(a)     == [k |-> "sum", c |-> <<a>>, sz |-> 0]
+F2(a, b)  == [k |-> "add", c |-> <<a, b>>, sz |-> 0]     \* an add in every pattern
 
 Shape(g, feats, losses, taskp, shared) ==
     [g |-> g, feats |-> feats, losses |-> losses, taskp |-> taskp, shared |-> shared]
@@ -98,6 +107,17 @@ Skel(id) ==
            Shape(<<A(1), A(1), A(1), O1(1), O2(4, 2), O1(5), O2(5, 3)>>, {4}, <<6, 7>>, <<{2}, {3}>>, {1})
       [] id = 8 ->   \* a loss reaches the shared parameter around the feature: B and T only (R10)
            Shape(<<A(1), A(1), O1(1), O2(3, 2), O2(3, 1)>>, {3}, <<4, 5>>, <<{2}, {}>>, {1})
+      [] id = 10 ->  \* vector parameter v used by the data term AND by the regulariser v*v, losses reduced by sum
+           Shape(<<A(3), A(3), A(1), O1(1), O2(4, 2), O2(2, 2), O2(5, 6), Sm(7), O2(4, 3), Sm(9)>>, {4}, <<8, 10>>,
+                 <<{2}, {3}>>, {1})
+      [] id = 11 ->  \* head 1: data term computed from the feature alone, its only parameter sits on a regulariser
+                     \* that is two ops deep; head 2 plain
+           Shape(<<A(1), A(1), A(1), O1(1), O1(4), O1(2), O1(6), O2(5, 7), O2(4, 3)>>, {4}, <<8, 9>>,
+                 <<{2}, {3}>>, {1})
+      [] id = 12 ->  \* both heads regularised (vector parameter reduced by sum / two parameters of its own); the
+                     \* nodes that join data term and regulariser are adds in every pattern
+           Shape(<<A(1), A(1), A(3), A(1), A(1), A(1), O1(1), O2(7, 2), O1(3), Sm(9), F2(8, 10),
+                   O2(7, 4), O2(5, 6), F2(12, 13)>>, {7}, <<11, 14>>, <<{2, 3}, {4, 5, 6}>>, {1})
       [] OTHER  ->   \* both heads use both features
            Shape(<<A(1), A(1), A(1), A(1), O1(1), O2(1, 2), O2(5, 6), O2(7, 3), O2(5, 6), O2(9, 4)>>, {5, 6},
                  <<8, 10>>, <<{3}, {4}>>, {1, 2})
@@ -180,6 +200,14 @@ MtlOK(sh) == /\ \A i, j \in 1..NL(sh) : i # j => HeadOf(sh, i) \cap HeadOf(sh, j
              \* (mtl_backward would count that path twice), and each is used by some loss
              /\ \A f1, f2 \in sh.feats : f1 # f2 => f2 \notin Desc(sh, {f1}, {})
              /\ sh.feats \subseteq Desc(sh, LossSet(sh), {})
+
+\* ---- parameter-only branches.  ParamOnly(sh, i): the nodes of head i that a sweep from its loss executes on
+\* the way to the head's own parameters but on NO way to the features (a regulariser added to the loss);
+\* a sweep loss_i -> features alone never visits them.  ParamOnlySaving: those of them that save tensors
+\* (the ones whose freed state is observable).
+ParamOnly(sh, i)    == (HeadOf(sh, i) \cap Needed(sh, sh.taskp[i])) \ Needed(sh, sh.feats)
+ParamOnlyAll(sh)    == UNION {ParamOnly(sh, i) : i \in 1..NL(sh)}
+ParamOnlySaving(sh) == {n \in ParamOnlyAll(sh) : Saves(sh, n)}
 
 \* ---- parameter-free heads.  StripHeads(sk, H): the heads at the positions H lose their own
 \* parameters - every use of one of them is replaced by a use of the (first) feature the head is
@@ -281,6 +309,9 @@ NoSelfInflictedFailure == (Ended /\ SweepOK(S, freed0, TwinSweep(cur))) => outco
 FreedAsTorch == (Ended /\ outcome = "ok") => freed = PropFreed(S, freed0, cur)
 \* (iii)
 RetainKeepsEverything == (Ended /\ outcome = "ok" /\ cur.retain) => freed = freed0
+\* (ii) on the parameter-only branches of the heads: mtl_backward(retain_graph=False) leaves them freed, like
+\* everything else the head's loss was computed with
+ParamOnlyBranchesFreed == (Ended /\ outcome = "ok" /\ cur.fn = "M" /\ ~cur.retain) => ParamOnlyAll(S) \subseteq freed
 \* while a call with retain_graph=False is running, only its LAST sweep may free anything
 OnlyLastSweepFrees == (stage = "run" /\ plan # <<>> /\ outcome = "ok" /\ cur.fn = "B") => freed = freed0
 
@@ -300,6 +331,7 @@ ScnHash == SumSeq([i \in 1..Len(hist) |-> (2 * i + 1) * CallCode(hist[i].call)])
            + 19 * SumSeq([i \in 1..NL(S) |-> IF i \in FreeHeads(S) THEN i ELSE 0])
 
 Scenario == [graph |-> S.g, feats |-> S.feats, losses |-> S.losses, taskp |-> S.taskp, shared |-> S.shared,
-             mtlok |-> MtlOK(S), saving |-> {n \in Nodes(S) : Saves(S, n)}, hist |-> hist]
+             mtlok |-> MtlOK(S), saving |-> {n \in Nodes(S) : Saves(S, n)},
+             ponly |-> IF MtlOK(S) THEN ParamOnlySaving(S) ELSE {}, hist |-> hist]
 Export == (Maximal /\ (ScnHash % SampleMod) = SamplePick) => PrintT(<<"SCN", ToJson(Scenario)>>)
 =============================================================================
